@@ -432,40 +432,42 @@ def solve_obligation(ob, timeout_ms=10000, want_model=True):
                 return "proved", "z3+sum-congruence", time.time() - t0, None
         except z3.Z3Exception:
             pass
-    s = z3.Solver()
-    s.set("timeout", timeout_ms)
-    for h in ob.hyps:
-        s.add(h)
-    s.add(z3.Not(g))
-    r = s.check()
-    dt = time.time() - t0
-    if r == z3.unsat:
-        return "proved", "z3", dt, None
-    if r == z3.sat:
-        m = s.model() if want_model else None
-        return "refuted", "z3", dt, m
-    # z3's quantifier instantiation is sensitive to internal ordering: the same VC takes 1 s or times out.
-    # Retry with other configurations (an `unsat` answer is sound in every configuration).
-    for cfg in ({"smt.mbqi": False}, {"smt.random_seed": 11}, {"smt.random_seed": 23, "smt.mbqi": False}, {"smt.random_seed": 37}):
-        s2 = z3.Solver()
-        s2.set("timeout", max(3000, timeout_ms // 2))
+    # z3's quantifier instantiation is heavy-tailed: the same VC takes 0.3 s under one configuration / hypothesis order
+    # and times out under another. Portfolio: every configuration with a SHORT budget first, then (after the sum
+    # congruence) every configuration with the full budget. An `unsat` / `sat` answer is sound under every configuration.
+    configs = ({}, {"smt.mbqi": False}, {"smt.random_seed": 11}, {"smt.random_seed": 23, "smt.mbqi": False}, {"smt.random_seed": 37})
+
+    def attempt(cfg, budget):
+        sv = z3.Solver()
+        sv.set("timeout", budget)
         try:
             for k2, v2 in cfg.items():
-                s2.set(k2, v2)
+                sv.set(k2, v2)
         except z3.Z3Exception:
-            continue
+            return None, sv
         for h in ob.hyps:
-            s2.add(h)
-        s2.add(z3.Not(g))
-        if s2.check() == z3.unsat:
-            return "proved", "z3", time.time() - t0, None
-    # sums: congruence preprocessing (pointwise equal bodies => equal sums), then z3 again
-    try:
-        from .bigsum import prove_with_congruence
-        if "bigsum<" in g.sexpr()[:2000000] and prove_with_congruence(ob.hyps, g, timeout_ms):
-            return "proved", "z3+sum-congruence", time.time() - t0, None
-    except z3.Z3Exception:
-        pass
+            sv.add(h)
+        sv.add(z3.Not(g))
+        return sv.check(), sv
+
+    s = None
+    for rnd, budget in enumerate((min(3000, timeout_ms), timeout_ms)):
+        for cfg in configs:
+            r, sv = attempt(cfg, budget)
+            if s is None:
+                s = sv
+            if r == z3.unsat:
+                return "proved", "z3", time.time() - t0, None
+            if r == z3.sat:
+                return "refuted", "z3", time.time() - t0, (sv.model() if want_model else None)
+        if rnd == 0:
+            # sums: congruence preprocessing (pointwise equal bodies => equal sums) before the long attempts
+            try:
+                from .bigsum import prove_with_congruence
+                if "bigsum<" in g.sexpr()[:2000000] and prove_with_congruence(ob.hyps, g, timeout_ms):
+                    return "proved", "z3+sum-congruence", time.time() - t0, None
+            except z3.Z3Exception:
+                pass
     # second opinions on the SMT-LIB dump
     smt = s.to_smt2()
     for name, cmd in (("cvc5", ["/usr/bin/cvc5", "--strings-exp", "--tlimit=30000", "--lang=smt2"]),
